@@ -342,10 +342,31 @@ def check_tables(ctx, lane, scenes, egos, div, index):
                         vals.add(int(a))
                 for a in vals:
                     areas[a] = areas.get(a, 0) + 1
+            area_ids = {}
+            for i in range(len(rows)):
+                for role in ("ground_truth", "estimation"):
+                    a = df.loc[(i, role)]["area"]
+                    if not _isnull(a):
+                        area_ids.setdefault(int(a), set()).add(i)
             for a, cnt in sorted(areas.items())[:3]:
                 sub = an.get(area=a)
-                if len(sub) != 2 * cnt:
-                    ctx.violate("C19", "selection", "area selection %d returns %d rows, %d pairs lie in that area" % (a, len(sub), cnt), {}, index)
+                got_ids = set(int(v) for v in sub.index.get_level_values(0))
+                if len(sub) != 2 * cnt or got_ids != area_ids[a]:
+                    ctx.violate("C19", "selection", "area selection %d returns %d rows (pairs %s), the pairs lying in that area are %s" %
+                                (a, len(sub), sorted(got_ids)[:8], sorted(area_ids[a])[:8]), {}, index)
+            # label selection through the generic filter: the pairs one of whose rows carries the label
+            lab_ids = {}
+            for i in range(len(rows)):
+                for role in ("ground_truth", "estimation"):
+                    lv = df.loc[(i, role)]["label"]
+                    if not _isnull(lv):
+                        lab_ids.setdefault(str(lv), set()).add(i)
+            for lv, ids in sorted(lab_ids.items())[:3]:
+                sub = an.get(label=lv)
+                got_ids = set(int(v) for v in sub.index.get_level_values(0))
+                if got_ids != ids or len(sub) != 2 * len(ids):
+                    ctx.violate("C19", "selection", "label selection %s returns pairs %s, the pairs carrying that label are %s" %
+                                (lv, sorted(got_ids)[:8], sorted(ids)[:8]), {}, index)
             dists = sorted(float(df.loc[(i, role)]["distance"]) for i in range(len(rows)) for role in ("ground_truth", "estimation")
                            if not _isnull(df.loc[(i, role)]["distance"]))
             bands = []
@@ -359,12 +380,15 @@ def check_tables(ctx, lane, scenes, egos, div, index):
                         break
             for lo, hi in bands:
                 if lo < hi and not any(abs(d - hi) < 1e-9 or abs(d - lo) < 1e-9 for d in dists):
-                    want = sum(1 for i in range(len(rows)) if any(
+                    want_ids = set(i for i in range(len(rows)) if any(
                         (not _isnull(df.loc[(i, role)]["distance"])) and lo <= float(df.loc[(i, role)]["distance"]) < hi
                         for role in ("ground_truth", "estimation")))
+                    want = len(want_ids)
                     sub = an.filter_by_distance((lo, hi))
-                    if len(sub) != 2 * want:
-                        ctx.violate("C19", "selection", "distance selection [%g, %g) returns %d rows, %d pairs qualify" % (lo, hi, len(sub), want), {}, index)
+                    got_ids = set(int(v) for v in sub.index.get_level_values(0))
+                    if len(sub) != 2 * want or got_ids != want_ids:
+                        ctx.violate("C19", "selection", "distance selection [%g, %g) returns %d rows (pairs %s), qualifying pairs are %s" %
+                                    (lo, hi, len(sub), sorted(got_ids)[:8], sorted(want_ids)[:8]), {}, index)
                     ctx.probe("c19_distance_selection")
         except Exception as ex:  # noqa
             hit = X.innermost_repo_frame(__import__("traceback").extract_tb(ex.__traceback__), R["src"])
